@@ -73,7 +73,10 @@ Strikes ==    \* make_cbdt_table: sorted gids, split at gaps
                                hi == CHOOSE x \in S : x >= lo /\ (\A z \in lo..x : z \in S) /\ (x + 1) \notin S
                            IN <<[first |-> lo, last |-> hi]>> \o Runs(S \ (lo..hi))
        IN strikes' = Runs(gids)
-    /\ outcome' = "ok" /\ phase' = "done"
+    \* CBDT small metrics / line metrics are 8-bit fields: fontTools refuses to pack what does not fit
+    /\ LET lineAsc == RoundHE(R(cfg.asc * ppem, cfg.upem)) IN
+       outcome' = IF widthPx <= 255 /\ lineAsc <= 127 /\ -(m.lh - lineAsc) >= -128 THEN "ok" ELSE "PackError"
+    /\ phase' = "done"
     /\ UNCHANGED <<cfg, img, ppem, widthPx, m, gids>>
 Next == Guard \/ Ppem \/ Metrics \/ Strikes
 Spec == Init /\ [][Next]_vars
